@@ -174,6 +174,10 @@ class TaskRegistry:
 
     def start(self) -> None:
         """Start task registry."""
+        # registered once - `start()` may be called again after a failed `XKNX.start()`
+        self.xknx.connection_manager.unregister_connection_state_changed_cb(
+            self.connection_state_changed_cb
+        )
         self.xknx.connection_manager.register_connection_state_changed_cb(
             self.connection_state_changed_cb
         )
@@ -195,7 +199,10 @@ class TaskRegistry:
 
     def connection_state_changed_cb(self, state: XknxConnectionState) -> None:
         """Handle connection state changes."""
-        for task in self.tasks:
+        # a target started eagerly may register or remove tasks
+        for task in tuple(self.tasks):
+            if task.xknx is None:
+                continue
             if state == XknxConnectionState.CONNECTED:
                 task.reconnected()
             else:
